@@ -242,12 +242,25 @@ Proof.
   - (* WSerial *)
     assert (Ha : active (w_pc w) = true) by (rewrite Epc; reflexivity).
     destruct (k_wrk _ _ K t w Hw Ha) as (i & Hi & Ek & Hact).
-    destruct (s_next (sr s) <? j_id (getj s (w_slot w))) eqn:Et; inv_some H.
+    destruct (s_next (sr s) <? j_id (getj s (w_slot w))) eqn:Et; [inv_some H|destruct (negb _) eqn:Emine; inv_some H].
     + apply N.ltb_lt in Et.
       eapply sinv_worker_job with (w := w) (w' := w_set_pc WSerialZ w) (j' := getj s (w_slot w)); eauto; try reflexivity.
       * intros k0. change (getj (set_w t (w_set_pc WSerialZ w) s) k0) with (getj s k0). destruct (Nat.eq_dec _ _) as [<-|]; reflexivity.
       * intros X. rewrite Ek. apply (s_jd _ _ S); auto. rewrite <- Ek. exact X.
       * left. split; [reflexivity|]. intros Z E. destruct (s_cz _ _ S Z) as (_ & D). rewrite E. exact D.
+    + (* the turn was skipped by a failed later job: nothing but the pc changes *)
+      set (jb := getj s (w_slot w)) in *. set (py := job_pay cfg s jb) in *.
+      assert (Hnz : w_pc (after_serial cfg w jb py) <> WSerialZ).
+      { unfold after_serial. destruct (negb _ && _); [cbn; discriminate|].
+        unfold next_chunk, last_block. repeat match goal with |- context[if ?b then _ else _] => destruct b end; cbn; discriminate. }
+      assert (Hsl : w_slot (after_serial cfg w jb py) = w_slot w).
+      { unfold after_serial. destruct (negb _ && _); [reflexivity|]. apply next_chunk_props; lia. }
+      apply (sinv_worker_job cfg s (set_w t (after_serial cfg w jb py) s) t w (after_serial cfg w jb py) jb K S Hw Ha Hsl eq_refl eq_refl eq_refl).
+      * intros k0. change (getj (set_w t (after_serial cfg w jb py) s) k0) with (getj s k0). destruct (Nat.eq_dec _ _) as [<-|]; reflexivity.
+      * reflexivity.
+      * intros X. unfold jb in *. rewrite Ek. apply (s_jd _ _ S); auto. rewrite <- Ek. exact X.
+      * intros X. contradiction.
+      * left. split; [reflexivity|]. intros Z E. destruct (s_cz _ _ S Z) as (_ & D). unfold jb. rewrite E. exact D.
     + set (jb := getj s (w_slot w)) in *. set (py := job_pay cfg s jb) in *.
       assert (Hnz : w_pc (after_serial cfg w jb py) <> WSerialZ).
       { unfold after_serial. destruct (negb _ && _); [cbn; discriminate|].
